@@ -33,6 +33,11 @@ def variants(rnd, ptlen, aadlen, exhaustive, others):
         yield ("extend", "^app:" + ext, "", "", "^app:" + ext)
         yield ("extend_aad", "", "", "^app:" + ext, "")
         yield ("prepend", "^pre:" + ext, "", "", "^pre:" + ext)
+    # a tag with bytes appended or removed (only meaningful for the detached interfaces)
+    for ext in ("00", "%02x" % rnd.randrange(256), "00" * 16):
+        yield ("extend_tag", "", "^app:" + ext, "", None)
+    for k in sorted(set([0, 1, 8, 15] + [rnd.randrange(16)])):
+        yield ("trunc_tag", "", "^trunc:%d" % k, "", None)
     if aadlen:
         yield ("trunc_aad", "", "", "^trunc:%d" % (aadlen - 1), "")
         yield ("empty_aad", "", "", "^trunc:0", "")
@@ -158,9 +163,12 @@ def monitor(sess, extra):
         ct0, tag0, aad0, pt0 = tgt
         if inplace:
             if len(op.b["tag"]) != nt:
-                r.counts["tag_not_a_tag"] += 1
+                r.counts["evaluations"] += 1
                 if op.ok():
-                    r.violation("C06:accepted_badlen_tag", "in-place open succeeded with a %d-byte tag" % len(op.b["tag"]), sess, op)
+                    r.violation("C06:accepted:%s:%s" % (iface, kind), "%s succeeded with a %d-byte tag (variant %s) and returned plaintext" % (iface, len(op.b["tag"]), kind), sess, op)
+                else:
+                    r.counts["variant:%s" % kind] += 1
+                    r.distinct.add((sess.ids[2], iface, kind, len(pt0)))
                 continue
             same = op.b["ct"] == ct0 and op.b["tag"] == tag0 and op.b["aad"] == aad0
         else:
@@ -198,7 +206,51 @@ def monitor(sess, extra):
     return r
 
 
-MONITORS = {"tamper": monitor}
+def build_directed(env, per_aead):
+    """Directed rare-event inputs: an empty-plaintext message whose genuine tag ends in one or more
+    zero bytes (probability 2^-8 per message).  The context is built from raw key material, so the
+    generator can search for a suitable aad with the reference AEAD; the reference is used to *find*
+    the input, not to judge the result."""
+    from ref import aead as refaead
+    g = gen.G(env.rnd)
+    rnd = env.rnd
+    cw = cl.CaseW()
+    found = 0
+    for aead in gen.SEAL_AEADS:
+        nk = refaead.params(aead)[0]
+        for j in range(per_aead):
+            key, bn = g.raw(nk), g.raw(12)
+            ptlen = rnd.choice([0, 0, 1, 16])
+            pt = g.raw(ptlen)
+            hit = None
+            for t in range(4000):
+                aad = t.to_bytes(2, "big") + g.raw(2)
+                full = refaead.seal(aead, key, bn, aad, pt)
+                if full[-1] == 0 or full[ptlen] == 0:
+                    hit = (aad, full)
+                    break
+            if hit is None:
+                continue
+            found += 1
+            aad, full = hit
+            kdf = gen.KDFS[j % 3]
+            s = cw.session(gen.KEMS[j % 4], kdf, aead, sid="z%d_%d" % (aead, j))
+            es = g.raw({1: 32, 2: 48, 3: 64}[kdf])
+            s.call("raw_s", key=key, bn=bn, es=es, out="S")
+            s.call("raw_r", key=key, bn=bn, es=es, out="R")
+            s.call("seal", ctx="S", api="alloc", pt=pt, aad=aad, out="m0")
+            aads = {"m0": cl.hexs(aad)}
+            nz = len(full) - len(full.rstrip(b"\x00"))
+            for k in range(1, 17):
+                # remove k trailing bytes / k leading tag bytes / replace them by zeros
+                emit(s, rnd, "open_alloc", "m0", aads, "trunc_trailing_zero_tag" if k <= nz else "trunc", "", "", "", "^trunc:%d" % (len(full) - k))
+                emit(s, rnd, "open_inplace", "m0", aads, "trunc_tag", "", "^trunc:%d" % (16 - k), "", None)
+            emit(s, rnd, "open_alloc", "m0", aads, "skip_first", None, "", "", "^skip:1")
+            s.call("open", ctx="R", api="alloc", ct="$m0.full", aad=aads["m0"], of="m0", variant="control")
+    return cw, found
+
+
+MONITORS = {"tamper": monitor, "directed": monitor}
 
 
 def run(env):
@@ -208,6 +260,11 @@ def run(env):
     env.require_complete(res, "tamper")
     mr = env.pmap(monitor, res.sessions, workload="tamper")
     env.extra_cov["sessions"] = len(res.sessions)
+    cw2, found = build_directed(env, env.pick(12, 120))
+    res2 = env.drive("directed", cw2.text())
+    env.require_complete(res2, "directed")
+    env.pmap(monitor, res2.sessions, workload="directed")
+    env.extra_cov["directed_zero_tag_messages"] = found
     need = ["iface:open", "iface:open_in_place_detached", "iface:ss_open", "iface:ss_open_in_place_detached"]
     missing = [k for k in need if mr.counts[k] < 20]
     if missing and not env.violations:
